@@ -644,6 +644,8 @@ class Provenance(MutableSequence[Expression]):
         return self._data.shape[0]
 
     def insert(self, index: int, value: Expression) -> None:
+        # Normalize the index as list.insert does: negative indices count from the end, out-of-range is clamped.
+        index = max(len(self) + index, 0) if index < 0 else min(index, len(self))
         self._data = np.insert(self._data, index, -1, axis=0)
         self[index] = value
 
